@@ -4008,8 +4008,16 @@ impl<'a> ZonedDifference<'a> {
             )
         })?;
         if t::sign(zdt2, &zmid) == -sign {
-            if sign == C(-1) {
-                panic!("this should be an error");
+            // For a negative difference, at most one day of correction is
+            // possible (as in Temporal's `DifferenceZonedDateTime`). We get
+            // here with no correction applied yet when the time of day is
+            // the same but `zdt2` is the later instant of a fold.
+            if sign == C(-1) && day_correct >= C(1) {
+                return Err(err!(
+                    "failed to find an intermediate datetime between \
+                     {zdt1} and {zdt2} (this is a bug in the time zone data \
+                     or in Jiff)",
+                ));
             }
             day_correct += C(1);
             mid = dt2
@@ -4030,7 +4038,10 @@ impl<'a> ZonedDifference<'a> {
                 )
             })?;
             if t::sign(zdt2, &zmid) == -sign {
-                panic!("this should be an error too");
+                return Err(err!(
+                    "failed to find an intermediate datetime between \
+                     {zdt1} and {zdt2} after correcting by two days",
+                ));
             }
         }
         let remainder_nano = zdt2.timestamp().as_nanosecond_ranged()
